@@ -3,6 +3,7 @@ package main
 import (
 	"fmt"
 	"go/token"
+	"go/types"
 	"sort"
 	"strings"
 
@@ -777,8 +778,11 @@ func ruleHTTPLookup(c *Ctx, rule string) {
 				cal := staticCallee(ci)
 				var hashArg ssa.Value
 				for i, p := range cal.Params {
-					if p.Name() == "chainHash" {
-						hashArg = ci.Common().Args[i]
+					// the helpers take the requested chain hash as their only []byte parameter
+					if sl, isSl := p.Type().Underlying().(*types.Slice); isSl && hashArg == nil {
+						if bt, isB := sl.Elem().Underlying().(*types.Basic); isB && bt.Kind() == types.Uint8 {
+							hashArg = ci.Common().Args[i]
+						}
 					}
 				}
 				ok := false
